@@ -217,8 +217,8 @@ func buildBlock(height uint32, txs []interfaces.Transaction, badRoot bool) (*typ
 	b := &types.Block{Header: ctypes.Header{Version: 0, Previous: u256(0x11), MerkleRoot: root, Timestamp: 1500000000 + height,
 		Bits: 0x207fffff, Nonce: 0, Height: height}, Transactions: txs}
 	hash := b.Header.Hash()
-	rev := common.BytesReverse(append([]byte{}, hash[:]...))
-	script := append([]byte{0xfa, 0xbe, 'm', 'm'}, rev...)
+	// empty aux branch: the committed root is the block hash itself (see auxpow.getBtcCoinbase)
+	script := append([]byte{0xfa, 0xbe, 'm', 'm'}, hash[:]...)
 	script = append(script, 1, 0, 0, 0, 0, 0, 0, 0)
 	cb := auxpow.BtcTx{Version: 1, TxIn: []*auxpow.BtcTxIn{{SignatureScript: script}}, TxOut: []*auxpow.BtcTxOut{}}
 	b.Header.AuxPow = auxpow.AuxPow{AuxMerkleBranch: []common.Uint256{}, ParCoinbaseTx: cb, ParCoinBaseMerkle: []common.Uint256{},
@@ -318,6 +318,46 @@ func runBlocks(r *evid.Run, f *fixture, ct *blkCounters, classes *evid.Distinct,
 		f.evalBlock(r, fmt.Sprintf("h=%d two-coinbases", h), h, []interfaces.Transaction{good(), f.coinbase(ctypes.TxVersion09, 2, "split", "ok", 0, 0, false)}, false, ct, classes, samples)
 		f.evalBlock(r, fmt.Sprintf("h=%d duplicate-tx", h), h, []interfaces.Transaction{good(), transferTx("ok"), transferTx("ok")}, false, ct, classes, samples)
 		f.evalBlock(r, fmt.Sprintf("h=%d bad-merkle-root", h), h, []interfaces.Transaction{good()}, true, ct, classes, samples)
+		// the merged-mining proof shapes of seam 3, end to end through CheckBlockSanity
+		for _, am := range []string{"empty-parent-txin", "script-ends-after-size", "aux-branch-32", "aux-branch-31"} {
+			b, err := buildBlock(h, []interfaces.Transaction{good()}, false)
+			if err != nil {
+				continue
+			}
+			ap := &b.Header.AuxPow
+			hash := b.Header.Hash()
+			switch am {
+			case "empty-parent-txin":
+				ap.ParCoinbaseTx.TxIn = []*auxpow.BtcTxIn{}
+			case "script-ends-after-size":
+				sc := ap.ParCoinbaseTx.TxIn[0].SignatureScript
+				ap.ParCoinbaseTx.TxIn[0].SignatureScript = append([]byte{}, sc[:len(sc)-4]...)
+			case "aux-branch-32", "aux-branch-31":
+				n := 32
+				if am == "aux-branch-31" {
+					n = 31
+				}
+				ap.AuxMerkleBranch = make([]common.Uint256, n)
+				ap.AuxMerkleIndex = int(expectedIndex(0, auxpow.AuxPowChainID, n))
+				rev := common.BytesReverse(append([]byte{}, hash[:]...))
+				rh, _ := common.Uint256FromBytes(rev)
+				root := auxpow.GetMerkleRoot(*rh, ap.AuxMerkleBranch, ap.AuxMerkleIndex)
+				sc := append([]byte{0xfa, 0xbe, 'm', 'm'}, common.BytesReverse(append([]byte{}, root[:]...))...)
+				var size uint32
+				if n < 32 {
+					size = 1 << uint(n)
+				}
+				sc = append(sc, byte(size), byte(size>>8), byte(size>>16), byte(size>>24), 0, 0, 0, 0)
+				ap.ParCoinbaseTx.TxIn[0].SignatureScript = sc
+			}
+			ap.ParBlockHeader.MerkleRoot = ap.ParCoinbaseTx.Hash()
+			buf := new(bytes.Buffer)
+			if err := b.Serialize(buf); err != nil {
+				continue
+			}
+			ct.built++
+			f.evalBlockBytes(r, fmt.Sprintf("h=%d auxpow=%s", h, am), buf.Bytes(), ct, classes, samples)
+		}
 	}
 }
 
